@@ -11,47 +11,103 @@ import (
 
 // An edge filter forbids the pairs whose bit is set in forbid (indexed by
 // arcIndex); for undirected graphs both orientations of a pair are set.
+// ext filters also run the extended until predicates.
 type edgeFilter struct {
 	name   string
 	forbid uint64
+	ext    bool
 }
 
 func arcIndex(u, v int) uint { return uint(u*maxN + v) }
 
-// filtersFor returns the Traverse filters exercised for a graph: none,
-// nil-equivalent allow-all, each single edge forbidden, a parity pattern, all.
+// filtersFor returns the Traverse filters exercised for a graph: nil,
+// allow-all, each single edge forbidden, every pair of edges forbidden (graphs
+// with at most 5 edges), odd-sum and even-sum edges forbidden, for directed
+// graphs ascending and descending arcs forbidden, everything forbidden.
 func filtersFor(s *gspec) []edgeFilter {
-	fs := []edgeFilter{{name: "nil"}, {name: "allow"}}
-	var all, parity uint64
+	fs := []edgeFilter{{name: "nil", ext: true}, {name: "allow"}}
+	var all, odd, even, up, down uint64
+	var singles []edgeFilter
 	for u := 0; u < s.n; u++ {
 		for v := 0; v < s.n; v++ {
 			if !s.has(u, v) {
 				continue
 			}
-			all |= 1 << arcIndex(u, v)
+			bit := uint64(1) << arcIndex(u, v)
+			all |= bit
 			if (u+v)%2 == 1 {
-				parity |= 1 << arcIndex(u, v)
+				odd |= bit
+			} else {
+				even |= bit
+			}
+			if u < v {
+				up |= bit
+			} else {
+				down |= bit
 			}
 			if s.directed || u < v {
-				f := uint64(1) << arcIndex(u, v)
+				f := bit
 				if !s.directed {
 					f |= 1 << arcIndex(v, u)
 				}
-				fs = append(fs, edgeFilter{name: fmt.Sprintf("no%d%d", u, v), forbid: f})
+				singles = append(singles, edgeFilter{name: fmt.Sprintf("no%d%d", u, v), forbid: f})
+			}
+		}
+	}
+	if len(singles) > 0 {
+		singles[len(singles)/2].ext = true
+	}
+	fs = append(fs, singles...)
+	if len(singles) <= 5 {
+		for a := range singles {
+			for b := a + 1; b < len(singles); b++ {
+				fs = append(fs, edgeFilter{name: singles[a].name + "+" + singles[b].name, forbid: singles[a].forbid | singles[b].forbid})
 			}
 		}
 	}
 	if all != 0 {
-		fs = append(fs, edgeFilter{name: "odd", forbid: parity}, edgeFilter{name: "none", forbid: all})
+		fs = append(fs, edgeFilter{name: "odd", forbid: odd, ext: true}, edgeFilter{name: "even", forbid: even, ext: true})
+		if s.directed {
+			fs = append(fs, edgeFilter{name: "up", forbid: up, ext: true}, edgeFilter{name: "down", forbid: down})
+		}
+		fs = append(fs, edgeFilter{name: "none", forbid: all})
 	}
 	return fs
 }
 
+// untilSpec is an until predicate: on a node index (both walkers) or on the
+// BFS depth (depth >= minDepth, BreadthFirst only).
+type untilSpec struct {
+	name     string
+	targets  uint8 // node predicate: index in targets
+	minDepth int   // > 0: depth predicate
+	ext      bool
+}
+
+// untilsFor: never true, every single target, and (extended) every pair of
+// targets and depth >= 1, 2, 3.
+func untilsFor(n int) []untilSpec {
+	us := []untilSpec{{name: "never"}}
+	for a := 0; a < n; a++ {
+		us = append(us, untilSpec{name: fmt.Sprintf("%d", a), targets: 1 << uint(a)})
+	}
+	for a := 0; a < n; a++ {
+		for b := a + 1; b < n; b++ {
+			us = append(us, untilSpec{name: fmt.Sprintf("%d|%d", a, b), targets: 1<<uint(a) | 1<<uint(b), ext: true})
+		}
+	}
+	for d := 1; d <= 3 && d < n; d++ {
+		us = append(us, untilSpec{name: fmt.Sprintf("depth>=%d", d), minDepth: d, ext: true})
+	}
+	return us
+}
+
 // traverseChecks runs BreadthFirst and DepthFirst from every start node under
-// every filter, with until = nil and until = "is node target" for every target.
+// every filter and until predicate (extended predicates under the ext filters).
 func traverseChecks(c *chk, b *built) {
 	s := b.s
 	g := b.g
+	untils := untilsFor(s.n)
 	for _, f := range filtersFor(s) {
 		f := f
 		allowed := func(u, v int) bool { return f.forbid>>arcIndex(u, v)&1 == 0 }
@@ -76,12 +132,36 @@ func traverseChecks(c *chk, b *built) {
 		for from := 0; from < s.n; from++ {
 			reach := s.reachFrom(from, s.all(), allowed)
 			dist := s.dist(from, allowed)
-			for target := -1; target < s.n; target++ {
-				what := fmt.Sprintf("filter=%s from=%d until=%d", f.name, from, target)
+			for _, us := range untils {
+				if us.ext && !f.ext {
+					continue
+				}
+				what := fmt.Sprintf("filter=%s from=%d until=%s", f.name, from, us.name)
+				never := us.targets == 0 && us.minDepth == 0
+				// acceptable results: BFS returns a satisfying node of minimal
+				// hop distance; DFS any reachable satisfying node.
+				var sat, bfsAccept uint8
+				best := -1
+				for v := 0; v < s.n; v++ {
+					if reach>>uint(v)&1 == 0 {
+						continue
+					}
+					if (us.minDepth > 0 && dist[v] >= us.minDepth) || us.targets>>uint(v)&1 != 0 {
+						sat |= 1 << uint(v)
+						if best < 0 || dist[v] < best {
+							best = dist[v]
+						}
+					}
+				}
+				for v := 0; v < s.n; v++ {
+					if sat>>uint(v)&1 != 0 && dist[v] == best {
+						bfsAccept |= 1 << uint(v)
+					}
+				}
 				// --- breadth first
 				{
 					travCalls = map[[2]int]int{}
-					var visits, untils []int
+					var visits, untilCalls []int
 					lastDepth := 0
 					bad := ""
 					bf := traverse.BreadthFirst{
@@ -90,7 +170,7 @@ func traverseChecks(c *chk, b *built) {
 					}
 					done := false
 					var until func(graph.Node, int) bool
-					if target >= 0 || from%2 == 0 {
+					if !never || from%2 == 0 {
 						until = func(n graph.Node, d int) bool {
 							i := b.ix(n.ID())
 							if done {
@@ -103,8 +183,8 @@ func traverseChecks(c *chk, b *built) {
 								bad = fmt.Sprintf("until depth decreased %d -> %d", lastDepth, d)
 							}
 							lastDepth = d
-							untils = append(untils, i)
-							if i == target {
+							untilCalls = append(untilCalls, i)
+							if (us.minDepth > 0 && d >= us.minDepth) || (i >= 0 && us.targets>>uint(i)&1 != 0) {
 								done = true
 								return true
 							}
@@ -113,9 +193,9 @@ func traverseChecks(c *chk, b *built) {
 					}
 					res := bf.Walk(g, b.node(from), until)
 					if until == nil {
-						untils = nil
-					} else if untils == nil {
-						untils = []int{}
+						untilCalls = nil
+					} else if untilCalls == nil {
+						untilCalls = []int{}
 					}
 					if len(visits) == 0 || visits[0] != from {
 						bad = fmt.Sprintf("first visit is not the start node: %v", visits)
@@ -124,7 +204,7 @@ func traverseChecks(c *chk, b *built) {
 						c.failf("BreadthFirst %s: %s%s", what, bad, badEdge)
 						return
 					}
-					checkWalk(c, "BreadthFirst "+what, b, reach, target, res, visits, untils, func(i int) bool { return bf.Visited(b.node(i)) })
+					checkWalk(c, "BreadthFirst "+what, b, reach, bfsAccept, res, visits, untilCalls, func(i int) bool { return bf.Visited(b.node(i)) })
 					if c.failed() {
 						return
 					}
@@ -135,16 +215,16 @@ func traverseChecks(c *chk, b *built) {
 							return
 						}
 					}
-					if target < 0 || reach>>uint(target)&1 == 0 {
+					if bfsAccept == 0 {
 						if !checkTraverseCalls(c, "BreadthFirst "+what, s, reach, travCalls, trav != nil) {
 							return
 						}
 					}
 				}
-				// --- depth first
-				{
+				// --- depth first (node predicates only)
+				if us.minDepth == 0 {
 					travCalls = map[[2]int]int{}
-					var visits, untils []int
+					var visits, untilCalls []int
 					bad := ""
 					df := traverse.DepthFirst{
 						Visit:    func(n graph.Node) { visits = append(visits, b.ix(n.ID())) },
@@ -156,21 +236,21 @@ func traverseChecks(c *chk, b *built) {
 						if done {
 							bad = "until called after it returned true"
 						}
-						untils = append(untils, i)
-						if i == target {
+						untilCalls = append(untilCalls, i)
+						if i >= 0 && us.targets>>uint(i)&1 != 0 {
 							done = true
 							return true
 						}
 						return false
 					}
 					var res graph.Node
-					if target == -1 && from%2 == 1 {
+					if never && from%2 == 1 {
 						res = df.Walk(g, b.node(from), nil)
-						untils = nil
+						untilCalls = nil
 					} else {
 						res = df.Walk(g, b.node(from), until)
-						if untils == nil {
-							untils = []int{}
+						if untilCalls == nil {
+							untilCalls = []int{}
 						}
 					}
 					if len(visits) == 0 || visits[0] != from {
@@ -180,7 +260,7 @@ func traverseChecks(c *chk, b *built) {
 						c.failf("DepthFirst %s: %s%s", what, bad, badEdge)
 						return
 					}
-					checkWalk(c, "DepthFirst "+what, b, reach, target, res, visits, untils, func(i int) bool { return df.Visited(b.node(i)) })
+					checkWalk(c, "DepthFirst "+what, b, reach, sat, res, visits, untilCalls, func(i int) bool { return df.Visited(b.node(i)) })
 					if c.failed() {
 						return
 					}
@@ -188,7 +268,7 @@ func traverseChecks(c *chk, b *built) {
 						c.failf("DepthFirst %s: visit order %v is not a depth-first order", what, visits)
 						return
 					}
-					if target < 0 || reach>>uint(target)&1 == 0 {
+					if sat == 0 {
 						if !checkTraverseCalls(c, "DepthFirst "+what, s, reach, travCalls, trav != nil) {
 							return
 						}
@@ -199,13 +279,18 @@ func traverseChecks(c *chk, b *built) {
 	}
 }
 
-// checkWalk validates the common contract of both walkers.
-func checkWalk(c *chk, what string, b *built, reach uint8, target int, res graph.Node, visits, untils []int, visited func(int) bool) {
+// checkWalk validates the common contract of both walkers. accept is the set
+// of nodes the walk may return (empty: it must return nil and walk everything).
+func checkWalk(c *chk, what string, b *built, reach uint8, accept uint8, res graph.Node, visits, untils []int, visited func(int) bool) {
 	s := b.s
-	found := target >= 0 && reach>>uint(target)&1 != 0
+	found := accept != 0
+	target := -1
 	if found {
-		if res == nil || b.ix(res.ID()) != target {
-			c.failf("%s: returned %v, want node %d (reachable)", what, res, target)
+		if res != nil {
+			target = b.ix(res.ID())
+		}
+		if target < 0 || accept>>uint(target)&1 == 0 {
+			c.failf("%s: returned %v, want one of %s", what, res, maskStr(accept))
 			return
 		}
 	} else if res != nil {
